@@ -118,7 +118,7 @@ func checkRing(c *mc.Ctx, box orb.Bound, ring orb.Ring, what string) orb.Ring {
 	}
 	// the same problem scaled by a power of two (exact in float64) must clip to the bit-for-bit scaled ring
 	if shift == (orb.Point{}) {
-		for _, k := range []float64{1024, 1.0 / 64} {
+		for _, k := range []float64{1024, 1.0 / (1 << 40)} {
 			if gs := clip.Ring(refgeom.ScaleBound(box, k), refgeom.Scale(ring, k).(orb.Ring)); !refgeom.Equal(gs, refgeom.Scale(got, k)) {
 				c.Failf("scaling", "scaled by %v the ring clips to %v | %s", k, gs, desc())
 			}
